@@ -6,3 +6,8 @@ pub mod gen;
 pub mod props;
 pub mod arb;
 pub mod fuzzglue;
+
+/// heap blocks are observed at the moment they are freed (C16, `libapi::observe_boxed`)
+#[cfg(feature = "allochook")]
+#[global_allocator]
+static ALLOC: libapi::WatchAlloc = libapi::WatchAlloc;
